@@ -500,7 +500,42 @@ def r9(ctx):
         raise AnalysisBroken('C13.R9: no comparison of a data size with the ID length found in message.cpp')
 
 
+def tolower_rule(ctx, rid):
+    ctx.rule(rid, 'names are compared without regard to case for every letter: FileReader::tolower, which builds the name keys of '
+             'the message map and folds the references of conditions, either applies the C library ::tolower to the whole string '
+             '(std::transform over begin..end) or, evaluated on a string holding all 256 byte values, maps each of A..Z to a..z '
+             'and leaves every other ASCII character alone', minimum=1)
+    import tinyeval
+    fb = ctx.fb
+    fn = fb.fn('ebusd::FileReader::tolower')
+    ctx.touch(fn)
+    tr = [c for c in fn.all('CallExpr') if (fn.nodes[c].get('callee') or '').startswith('std::transform') and len(fn.nodes[c].get('args', [])) == 4]
+    if tr:
+        c = tr[0]
+        a = [fn.key(x) for x in fn.nodes[c]['args']]
+        st = fn.P(0)
+        import re
+        a = [re.sub(r'^[\w:]+\{(.*)\}$', r'\1', x) for x in a]
+        ok = a[0] in ('%s.begin()' % st, '(*%s).begin()' % st) and a[1] in ('%s.end()' % st, '(*%s).end()' % st) and a[2] == a[0] and \
+            a[3].lstrip('&') in ('tolower', '::tolower')
+        ctx.ob(rid, fn, c, ok, 'case folding by the C library', 'transform(%s)' % ', '.join(a))
+        return
+    data = [b if b < 128 else b - 256 for b in range(256)]
+    model = list(data)
+    try:
+        tinyeval.Machine(fn, {}, [model]).call()
+    except tinyeval.Unknown as e:
+        raise AnalysisBroken('%s: FileReader::tolower uses a construct the evaluation does not model (%s)' % (rid, e))
+    bad = []
+    for b in range(128):
+        want = b + 32 if 65 <= b <= 90 else b
+        if (model[b] & 0xff) != want:
+            bad.append('%r -> %r' % (chr(b), chr(model[b] & 0xff)))
+    ctx.ob(rid, fn, fn.body, not bad and len(model) == 256, 'case folding loop', '; '.join(bad[:4]) or 'A..Z folded, the rest unchanged')
+
+
 def run(ctx):
+    tolower_rule(ctx, 'C13.R10')
     r9(ctx)
     r1(ctx)
     r2(ctx)
